@@ -56,7 +56,7 @@ int main(int argc, char** argv)
     std::ifstream in(argv[1]);
     std::string line;
     static char obuf[1 << 16];
-    std::setvbuf(stdout, obuf, _IOFBF, sizeof obuf);
+    std::setvbuf(stdout, obuf, _IOLBF, sizeof obuf);
     while (std::getline(in, line))
     {
         std::istringstream ls(line);
